@@ -72,6 +72,11 @@ where
     }
 
     #[inline(always)]
+    pub(crate) fn set_completed(&self) {
+        self.completed.store(true, atomic::Ordering::SeqCst);
+    }
+
+    #[inline(always)]
     pub(crate) fn progress_yielded_counter(&self, num_yielded: usize) -> usize {
         self.yielded_counter.fetch_and_add(num_yielded)
     }
@@ -189,7 +194,11 @@ where
                     assert_eq!(older_count, begin_idx);
                     None
                 }
-                _ => {
+                len => {
+                    if len < n {
+                        // the wrapped iterator returned None: there is nothing left
+                        self.completed.store(true, atomic::Ordering::SeqCst);
+                    }
                     let values = buffer.into_iter();
                     let older_count = self.progress_yielded_counter(n);
                     assert_eq!(older_count, begin_idx);
